@@ -410,6 +410,84 @@ func runC20(e *env) {
 		e.m.fail(oracleFailure{What: "data race detected by the Go race detector in concurrent FormatFile requests", Input: cfgs[0], Got: tail(firstRace(stderr.String()), 4000)})
 	}
 	e.writeC20(prog, cfgs, results, nil)
+	c20CLI(e)
+}
+
+// c20CLI: the command itself (cmd/gomacro.go:saveOutputs issues the formatting requests, one goroutine per output, on the
+// shared cache): built with -race and run on a small package with stand-in tools first on PATH. A failing formatter run
+// must reach the user (non-zero exit), a run where every tool succeeds or is absent must end normally, and the race
+// detector must stay silent.
+func c20CLI(e *env) {
+	dir := scratchDir("c20cli")
+	bin := filepath.Join(dir, "gomacro-race")
+	build := exec.Command("go", "build", "-race", "-o", bin, "./cmd")
+	build.Dir = repoDir
+	build.Env = os.Environ()
+	if outb, err := build.CombinedOutput(); err != nil {
+		e.m.fail(oracleFailure{What: "the command does not build with -race: " + tail(string(outb), 1500), Input: "go build -race ./cmd", NoInput: true})
+		return
+	}
+	mod := filepath.Join(dir, "mod")
+	writeFile(filepath.Join(mod, "go.mod"), "module example.com/org/models\n\ngo 1.21\n")
+	writeFile(filepath.Join(mod, "models.go"), "package models\n\ntype S struct {\n\tA int\n\tB string\n\tL []int\n}\n")
+	goDir := ""
+	if p, err := exec.LookPath("go"); err == nil {
+		goDir = filepath.Dir(p)
+	}
+	type scenario struct {
+		Name     string            `json:"name"`
+		Tools    map[string]string `json:"tools"` // tool -> shell body ($1.. are its arguments)
+		WantFail bool              `json:"a_formatter_run_fails"`
+	}
+	probeOK := "case \"$*\" in *-v*|*--help*) exit 0;; esac\n"
+	scenarios := []scenario{
+		{"go-run-fails-at-once-ts-run-succeeds-later", map[string]string{"goimports": "exit 1\n", "npx": probeOK + "sleep 0.6\nexit 0\n"}, true},
+		{"ts-run-fails-later-go-run-succeeds-at-once", map[string]string{"goimports": "exit 0\n", "npx": probeOK + "sleep 0.4\nexit 3\n"}, true},
+		{"every-run-succeeds", map[string]string{"goimports": "exit 0\n", "npx": probeOK + "exit 0\n"}, false},
+		{"tools-absent", map[string]string{"npx": "exit 1\n"}, false},
+	}
+	for si, sc := range scenarios {
+		fake := filepath.Join(dir, fmt.Sprintf("fake%d", si))
+		os.MkdirAll(fake, 0o755)
+		for tool, body := range sc.Tools {
+			writeFile(filepath.Join(fake, tool), "#!/bin/sh\n"+body)
+			os.Chmod(filepath.Join(fake, tool), 0o755)
+		}
+		outDir := filepath.Join(dir, fmt.Sprintf("out%d", si))
+		os.MkdirAll(outDir, 0o755)
+		cmd := exec.Command(bin, "models.go", "go/randdata:"+filepath.Join(outDir, "gen.go"), "typescript/types:"+filepath.Join(outDir, "gen.ts"))
+		cmd.Dir = mod
+		env := []string{"PATH=" + fake + ":" + goDir + ":/usr/bin:/bin", "HOME=" + os.Getenv("HOME"), "GORACE=halt_on_error=0 exitcode=0"}
+		for _, kv := range os.Environ() {
+			if strings.HasPrefix(kv, "GO") && !strings.HasPrefix(kv, "GORACE=") {
+				env = append(env, kv)
+			}
+		}
+		cmd.Env = env
+		var outb bytes.Buffer
+		cmd.Stdout, cmd.Stderr = &outb, &outb
+		err := cmd.Run()
+		failed := err != nil
+		text := outb.String()
+		e.m.Evaluations++
+		e.m.OracleRuns++
+		e.m.Nontrivial++
+		e.m.count("cli_scenario")
+		input := map[string]interface{}{"scenario": sc, "command": "gomacro models.go go/randdata:<out>/gen.go typescript/types:<out>/gen.ts"}
+		if strings.Contains(text, "DATA RACE") {
+			e.m.fail(oracleFailure{What: "data race detected by the Go race detector in the goroutines of saveOutputs issuing the formatting requests", Input: input, Got: tail(firstRace(text), 3000)})
+		}
+		if !strings.Contains(text, "Waiting for formatters") {
+			e.m.fail(oracleFailure{What: "the command did not reach the formatting stage: " + tail(text, 600), Input: input, NoInput: true})
+			continue
+		}
+		if sc.WantFail && !failed {
+			e.m.fail(oracleFailure{What: "a formatter run failed and the command ended normally: the failure did not reach the user", Input: input, Got: tail(text, 800)})
+		}
+		if !sc.WantFail && failed {
+			e.m.fail(oracleFailure{What: "no formatter run failed and the command ended with an error", Input: input, Got: tail(text, 800)})
+		}
+	}
 }
 
 func tail(s string, n int) string {
